@@ -522,10 +522,18 @@ def rule_foreach(tk, F, size_of=None):
             be = match_close(tk, le + 1)
             if be + 1 != pe: raise Drift("for_each: unexpected tokens after lambda")
             body = rule_foreach(tk[le + 2:be], F, size_of)
+            # `bool r = mp_for_each_until<L>(f);` : r is the value of the fold (some call returned true)
+            resvar = None
+            if t == 'mp_for_each_until' and len(out) >= 3 and out[-1] == '=' and out[-3] in ('bool', 'auto', '_Bool'):
+                resvar = out[-2]
+                del out[-1:]
+                out += [T('=', t.line), T('false', t.line), T(';', t.line)]
             if t == 'mp_for_each_until':
                 b2 = []; k = 0
                 while k < len(body):
-                    if body[k] == 'return' and body[k + 1:k + 3] == ['true', ';']: b2.append(T('break', body[k].line)); k += 2; continue
+                    if body[k] == 'return' and body[k + 1:k + 3] == ['true', ';']:
+                        if resvar: b2 += [T('{', body[k].line), T(str(resvar), body[k].line), T('=', body[k].line), T('true', body[k].line), T(';', body[k].line), T('break', body[k].line), T(';', body[k].line), T('}', body[k].line)]; k += 3; continue
+                        b2.append(T('break', body[k].line)); k += 2; continue
                     if body[k] == 'return' and body[k + 1:k + 3] == ['false', ';']: b2.append(T('continue', body[k].line)); k += 2; continue
                     if body[k] == 'return': raise Drift("mp_for_each_until lambda: only `return true;`/`return false;` supported")
                     b2.append(body[k]); k += 1
